@@ -271,6 +271,27 @@ func introOf(x hx.Sexp) (*IntroD, error) {
 
 // ---- ties ---------------------------------------------------------------------------------------
 
+// useDef makes bt's extracted definition the driver's current one (sent once per build; requests
+// then say `cur`). The driver keeps exactly one definition: curDef remembers the serial number of
+// the build it belongs to (not its address, which the garbage collector may reuse).
+func (h *harness) useDef(bt *built) (hx.Sexp, *failure) {
+	if bt.defSexp == nil {
+		x, err := extract(bt.def, newIDAlloc(1))
+		if err != nil {
+			return hx.Sexp{}, corr("extract", "the definition cannot be abstracted for the model: "+err.Error())
+		}
+		bt.defSexp = &x
+	}
+	if h.curDef != bt.serial {
+		rep, err := h.model.Ask(hx.N("def", *bt.defSexp).String())
+		if err != nil || rep != "ok" {
+			return hx.Sexp{}, corr("model-driver", fmt.Sprintf("model driver did not accept the definition: %q %v", rep, err))
+		}
+		h.curDef = bt.serial
+	}
+	return hx.A("cur"), nil
+}
+
 func corr(class, what string) *failure {
 	return &failure{Part: "model", Kind: "correspondence", Class: class, What: what}
 }
@@ -290,9 +311,9 @@ func (h *harness) ask(line string) (hx.Sexp, *failure) {
 // tieIntro compares the model's `introspect` (and, for the first feature set of a schema, the
 // model's registries and the acceptance predicate) with the implementation.
 func (h *harness) tieIntro(bt *built, s *schema.Schema, F []string, got *IntroD) *failure {
-	x, err := extract(bt.def, newIDAlloc(1))
-	if err != nil {
-		return corr("extract", "the definition cannot be abstracted for the model: "+err.Error())
+	x, f0 := h.useDef(bt)
+	if f0 != nil {
+		return f0
 	}
 	reg, impls := registrySexps(s)
 	if bt.tied == 0 {
@@ -423,9 +444,9 @@ func (h *harness) tieRebuild(bt *built, s *schema.Schema, data []byte) *failure 
 	if err != nil {
 		return corr("extract", "the rebuilt definition cannot be abstracted for the model: "+err.Error())
 	}
-	x, err := extract(bt.def, newIDAlloc(1))
-	if err != nil {
-		return corr("extract", err.Error())
+	x, f0 := h.useDef(bt)
+	if f0 != nil {
+		return f0
 	}
 	reg, impls := registrySexps(s)
 	rep, f := h.ask(hx.N("rebuild", x, reg, impls, featuresSexp(bt.sdef.allFeatures())).String())
@@ -445,12 +466,9 @@ func (h *harness) tieRebuild(bt *built, s *schema.Schema, data []byte) *failure 
 // specification parser must read the implementation's text as the literal denoting the configured
 // value, and that literal must coerce back to it.
 func (h *harness) tieRoundTrip(bt *built, cd confDefault, path, text string) *failure {
-	if bt.defSexp == nil {
-		x, err := extract(bt.def, newIDAlloc(1))
-		if err != nil {
-			return nil
-		}
-		bt.defSexp = &x
+	x, f0 := h.useDef(bt)
+	if f0 != nil {
+		return f0
 	}
 	e := &extractor{ids: newIDAlloc(1), types: map[string]schema.NamedType{}}
 	ts := e.typ(cd.Typ)
@@ -458,7 +476,7 @@ func (h *harness) tieRoundTrip(bt *built, cd confDefault, path, text string) *fa
 	if e.err != nil {
 		return nil
 	}
-	rep, f := h.ask(hx.N("roundtrip", *bt.defSexp, ts, vs, hx.A(canonLiteral(text))).String())
+	rep, f := h.ask(hx.N("roundtrip", x, ts, vs, hx.A(canonLiteral(text))).String())
 	if f != nil {
 		return f
 	}
